@@ -218,6 +218,21 @@ def explore(pid, tier, seed, verdict, full=True):
                     nfu += 1
                     os.remove(fo)
             st["first_use_processes"] = nfu
+            # ... and processes in which threads keep loading while main() has returned and static destructors run
+            nax = 0
+            for i in range(6 if tier == "quick" else 60):
+                fo = os.path.join(work, "atexit.ndjson")
+                if os.path.exists(fo):
+                    os.remove(fo)
+                fr = V.run_driver(exe, [fresh_b, fo, good, "--atexit"], timeout=120, env={"TSAN_OPTIONS": "halt_on_error=0:report_signal_unsafe=0"})
+                if "ThreadSanitizer" in fr.stderr:
+                    verdict.violation("tsan-report", "ThreadSanitizer reported (process exit): " + fr.stderr[fr.stderr.find("WARNING"):][:1500])
+                elif fr.returncode != 0 or not os.path.exists(fo):
+                    verdict.violation("exit-crash:rc%d" % fr.returncode, "a process whose threads were still loading zones died while exiting: " + fr.stderr[-400:])
+                if os.path.exists(fo):
+                    evs_fresh += open(fo).read().splitlines()
+                    nax += 1
+            st["exit_processes"] = nax
         # split the log at LBegin boundaries into shards for parallel validation
         evs = open(out).read().splitlines() + evs_fresh
         events = len(evs)
@@ -266,7 +281,7 @@ def explore(pid, tier, seed, verdict, full=True):
                     key = k
                     fac = res_bad = False
                 relevant = (pid == "C20" and ((k == "Attack" and fac) or k in ("SFacEnter", "LStep", "AfterThrow"))) or \
-                           (pid == "C13" and ((k == "Attack" and res_bad) or k in ("LStep", "SRet", "SFacEnter", "SHammer", "FirstUse", "Reentrant"))) or \
+                           (pid == "C13" and ((k == "Attack" and res_bad) or k in ("LStep", "SRet", "SFacEnter", "SHammer", "FirstUse", "Reentrant", "AtExit"))) or \
                            (pid == "C14" and k in ("LStep", "SRet", "SFacEnter", "Reentrant"))      # the name cache is invisible
                 if pid == "C14":
                     key = "cache:" + key
